@@ -568,6 +568,15 @@ func runIR(repo string) (string, error) {
 			}
 		}
 		fmt.Fprintf(&b, "def %s_ctx0 : String := %s\n\n", leanIdent(p.name), leanStr(how))
+		// extracted fact: where the timer channels of the timer alternatives come from (goroutine, source)
+		fmt.Fprintf(&b, "def %s_timers : List (String × String) := [", leanIdent(p.name))
+		for i, x := range p.timers {
+			if i > 0 {
+				b.WriteString(", ")
+			}
+			fmt.Fprintf(&b, "(%s, %s)", leanStr(x[0]), leanStr(x[1]))
+		}
+		b.WriteString("]\n\n")
 	}
 	b.WriteString("def all : List Pipeline := [" + strings.Join(names, ", ") + "]\n")
 	b.WriteString("end Dos.Gen.Pipes\n")
